@@ -352,6 +352,7 @@ Model generate(sim::Rng& rng, const GenOptions& opt) {
     Obj o;
     o.maximize = rng.chance(0.4);
     int nt = (int)rng.range(opt.tag_objectives ? 1 : 0, std::min(nv, 4));
+    if (opt.tag_objectives && rng.chance(0.15)) nt = 0;     // an objective without linear part (no G segment): a constant, or purely nonlinear
     std::set<int> used;
     for (int t = 0; t < nt; ++t) {
       int j = (int)rng.below(nv);
